@@ -116,6 +116,7 @@ Definition diag_case (c : name * block) : string := "the prefix of the bundle is
 
 KEY_SHADOW = "require-shadowing-ignored-in-required-module:DefaultVisitor"
 KEY_NIL = "nil-module-value:boxed-cache-returns-nil"
+KEY_DOT = "same-file-two-path-keys:root-level-module-requires-dot-prefixed"
 KEY_DATA_ERR = "malformed-data-error-does-not-name-the-file:transcode"
 
 GENERATORS = ["readable", "dense", "retain_lines"]
@@ -330,6 +331,7 @@ def behaviour_stream(ctx, rnd, n_random, proofs_ok):
                      "config": config_text(proj, generator, rules, ident), "reference": proj["reference"],
                      "modules_identifier": ident or "__DARKLUA_BUNDLE_MODULES"})
 
+    wrnd0 = random.Random(20250926)
     for i in range(n_random):
         proj = G.gen_project(rnd)
         proj["mode_object"] = rnd.random() < 0.3
@@ -343,6 +345,25 @@ def behaviour_stream(ctx, rnd, n_random, proofs_ok):
                 continue
             k += 1
             add(proj, GENERATORS[k % 3], rnd.choice([[], [], ["rename_variables"], ["remove_unused_variable"]]), None, "ordinary")
+    # equal file names in different directories, required through `..` (acyclic: must bundle and behave)
+    for li, paths in enumerate(G.SAMENAME_LAYOUTS):
+        n = len(paths)
+        adj = [[i + 1] if i + 1 < n else [] for i in range(n)]
+        adj[0] = adj[0] + [n - 1] + ([2] if n > 3 else [])
+        for mode in ("path", "luau"):
+            k += 1
+            add(G.layout_project(rnd, mode, paths, adj), GENERATORS[k % 3], rnd.choice([[], ["rename_variables"]]), None, "ordinary")
+    # data files whose sequences have nulls that are not last: every index is read
+    for fmt in ("json", "json5", "yaml", "yml"):
+        for holes in ("map", "array"):
+            k += 1
+            add(G.data_holes_project(rnd, "luau" if k % 3 == 0 else "path", fmt, holes), GENERATORS[k % 3],
+                rnd.choice([[], [], ["remove_unused_variable", "rename_variables"]]), None, "ordinary")
+    # a root-level module that requires a file also required from a sub-directory: recorded finding
+    for vt in (["table", "table"], ["func", "table"]):
+        k += 1
+        add(G.layout_project(wrnd0, "path", ["src/main.lua", "src/x.lua", "util.lua"], [[1, 2], [], [1]], vtypes=vt),
+            GENERATORS[k % 3], [], None, "dotprefix")
     # the two recorded deviations, a few witnesses each (fixed seeds so that the key names something reproducible)
     wrnd = random.Random(20250925)
     for i in range(4):
@@ -413,6 +434,8 @@ def behaviour_stream(ctx, rnd, n_random, proofs_ok):
             key = KEY_SHADOW
         if klass == "nil" and "nil-module" in projects[p]["features"]:
             key = KEY_NIL
+        if klass == "dotprefix":
+            key = KEY_DOT
         ctx.violation("the bundle behaves differently from the entry run with a standard require",
                       replay_of(p, {"class": klass}), key=key)
     for p, status, message in failures:
@@ -422,7 +445,7 @@ def behaviour_stream(ctx, rnd, n_random, proofs_ok):
             {"ERR": "reports an error", "PANIC": "panics", "HANG": "hangs", "BAD": "writes an unparsable bundle",
              "CRASH": "crashes"}[status],
             message[:300]), replay_of(p, {"class": klass, "status": status}), key=key)
-    for klass, key in (("shadow", KEY_SHADOW), ("nil", KEY_NIL)):
+    for klass, key in (("shadow", KEY_SHADOW), ("nil", KEY_NIL), ("dotprefix", KEY_DOT)):
         hit = [p for p in differ if meta[p]["class"] == klass] + [p for p, _, _ in failures if meta[p]["class"] == klass]
         if not hit and key in ctx.known:
             # the recorded deviation no longer shows: say so (the entry of known_findings.txt is stale)
@@ -431,7 +454,7 @@ def behaviour_stream(ctx, rnd, n_random, proofs_ok):
     # model = code on the same projects (no rule pipeline: names and markers are intact)
     shape_results = {p: (results[p + 100000] if meta[p]["rules"] else results[p]) for p in projects}
     plain = {p: projects[p] for p in projects if unhex_msg(shape_results[p][0])[0] in ("OK", "ERR")
-             and meta[p]["class"] != "shadow"}
+             and meta[p]["class"] not in ("shadow", "dotprefix")}
     # the shape is read with the project's modules identifier
     cases, cidx = model_cases(plain, shape_results)
     bad = C.run_coq_cases(ctx.prop, SHAPE_PREAMBLE, cases, chunk=60, tag="shape")
@@ -448,6 +471,88 @@ def behaviour_stream(ctx, rnd, n_random, proofs_ok):
     ctx.stream("emitted module wrapper (modules table, __modImpl, caching accessor) = Model/BundleWrapper.v, per real bundle",
                len(wcases), len(wcases), [], mismatches=len(wbad))
     return [(cidx[k], d) for k, d in bad] + [(widx[k], d) for k, d in wbad], projects, meta, shape_results
+
+
+def strip_dot(path):
+    return path[2:] if path.startswith("./") else path
+
+
+def graph_verdict(ctx, proj, cols, what):
+    """independent oracle for a project made by G.small_project: error iff the graph reachable from the
+    entry has a cycle; a cyclic-require message names a cycle of files of the graph; no crash. -> cyclic?"""
+    status, message = unhex_msg(cols[0])
+    cyc, seen = G.reachable_cycle(len(proj["adj"]), proj["adj"])
+    if status == "SKIPPED":
+        return cyc
+    rep = {"files": proj["files"], "entry": proj["entry"], "adjacency": proj["adj"], "paths": proj["paths"],
+           "status": status, "message": message[:600]}
+    tag = "%s:%s" % (",".join(proj["paths"]) if proj.get("custom_paths") else "", proj["adj"])
+    if status in ("PANIC", "HANG", "BAD", "CRASH"):
+        ctx.violation("darklua %s on %s" % (status.lower(), what), rep, key="small-graph:%s:%s" % (status, tag))
+    elif cyc and status == "OK":
+        ctx.violation("a cyclic module graph was bundled without an error (%s)" % what, rep, key="cycle-not-reported:%s" % tag)
+    elif not cyc and status != "OK":
+        ctx.violation("an acyclic well-formed module graph is rejected (%s): %s" % (what, message[:200]), rep,
+                      key="acyclic-rejected:%s" % tag)
+    elif cyc:
+        items = [it for it in split_errors(message) if it.startswith("cyclic require detected")]
+        ok = bool(items)
+        for it in items:
+            chain = [strip_dot(c) for c in re.findall(r"`([^`]*)`", it)]
+            idx = [proj["paths"].index(c) if c in proj["paths"] else -1 for c in chain]
+            if len(idx) < 2 or idx[0] != idx[-1] or -1 in idx or any(b not in proj["adj"][a] for a, b in zip(idx, idx[1:])):
+                ok = False
+            if idx and idx[0] not in seen:
+                ok = False
+        if not ok:
+            ctx.violation("the error for a cyclic graph does not name a cycle of files of the graph (%s)" % what, rep,
+                          key="cycle-message:%s" % tag)
+    return cyc
+
+
+def samename_stream(ctx, rnd):
+    """files with equal names / equal trailing path components in other directories, required through `..`:
+    the acyclic chains must bundle (one definition per file), the same layouts with a real back edge must fail"""
+    projects, jobs = {}, []
+    pid = 0
+    for paths in G.SAMENAME_LAYOUTS:
+        n = len(paths)
+        chain = [[i + 1] if i + 1 < n else [] for i in range(n)]
+        variants = [("acyclic", chain),
+                    ("acyclic", [c + ([n - 1] if i == 0 and n > 2 else []) for i, c in enumerate(chain)]),
+                    ("acyclic", [c + ([i + 2] if i + 2 < n else []) for i, c in enumerate(chain)]),
+                    ("cyclic", [c + ([1] if i == n - 1 else []) for i, c in enumerate(chain)]),
+                    ("cyclic", [c + ([0] if i == n - 1 else []) for i, c in enumerate(chain)]),
+                    ("cyclic", [c + ([i] if i == n - 1 else []) for i, c in enumerate(chain)]),
+                    ("cyclic", [c + ([i - 1] if i == n - 1 and i > 1 else []) for i, c in enumerate(chain)])]
+        for kind, adj in variants:
+            for mode in ("path", "luau"):
+                pid += 1
+                proj = G.small_project(n, adj, mode=mode, paths=paths)
+                proj["custom_paths"] = True
+                proj["hazard"] = G.root_level_hazard(mode, paths, adj)
+                proj["expect"] = kind
+                projects[pid] = proj
+                jobs.append({"id": pid, "files": proj["files"], "entry": proj["entry"],
+                             "config": config_text(proj, GENERATORS[pid % 3], [], None)})
+    results = run_harness(jobs)
+    cyclic_n = 0
+    for p, proj in projects.items():
+        cyc = graph_verdict(ctx, proj, results[p], "files with equal names in different directories")
+        cyclic_n += cyc
+        if cyc != (proj["expect"] == "cyclic"):
+            raise C.CheckBroken("same-name layout %s %s is not %s" % (proj["paths"], proj["adj"], proj["expect"]))
+    # the model identifies a file with its path; a root-level file that requires something makes darklua use a
+    # second spelling (`./x/y.lua`) of the paths it requires (recorded finding): those projects are judged by
+    # the oracle above only
+    cases, cidx = model_cases({p: q for p, q in projects.items() if not q["hazard"]}, results)
+    bad = C.run_coq_cases(ctx.prop, SHAPE_PREAMBLE, cases, chunk=200, tag="samename")
+    ctx.stream("equal file names / equal trailing path components in ancestor, sibling and deeper directories, required "
+               "through `..` (7 layouts x 7 edge sets x 2 modes): acyclic chains bundle with one definition per file, the "
+               "same layouts with a back edge are reported; verdict vs an independent cycle test and vs Model/Bundle.v",
+               len(projects), len(projects), [{"paths": projects[1]["paths"], "adjacency": projects[1]["adj"]}],
+               cyclic=cyclic_n, acyclic=len(projects) - cyclic_n, compared_with_model=len(cases), mismatches=len(bad))
+    return [(cidx[k], d) for k, d in bad], projects, results
 
 
 def small_graph_stream(ctx, rnd, sizes, sample4):
@@ -468,34 +573,7 @@ def small_graph_stream(ctx, rnd, sizes, sample4):
     results = run_harness(jobs)
     cyclic_n = 0
     for p, proj in projects.items():
-        status, message = unhex_msg(results[p][0])
-        cyc, seen = G.reachable_cycle(len(proj["adj"]), proj["adj"])
-        cyclic_n += cyc
-        if status == "SKIPPED":
-            continue
-        rep = {"files": proj["files"], "entry": proj["entry"], "adjacency": proj["adj"], "status": status, "message": message[:600]}
-        if status in ("PANIC", "HANG", "BAD", "CRASH"):
-            ctx.violation("darklua %s on a small module graph" % status.lower(), rep, key="small-graph:%s:%s" % (status, proj["adj"]))
-            continue
-        if cyc and status == "OK":
-            ctx.violation("a cyclic module graph was bundled without an error", rep, key="cycle-not-reported:%s" % proj["adj"])
-            continue
-        if not cyc and status != "OK":
-            ctx.violation("an acyclic well-formed module graph is rejected: " + message[:200], rep, key="acyclic-rejected:%s" % proj["adj"])
-            continue
-        if cyc:
-            items = [it for it in split_errors(message) if it.startswith("cyclic require detected")]
-            ok = bool(items)
-            for it in items:
-                chain = re.findall(r"`([^`]*)`", it)
-                idx = [proj["paths"].index(c) if c in proj["paths"] else -1 for c in chain]
-                if len(idx) < 2 or idx[0] != idx[-1] or -1 in idx or any(b not in proj["adj"][a] for a, b in zip(idx, idx[1:])):
-                    ok = False
-                if idx and idx[0] not in seen:
-                    ok = False
-            if not ok:
-                ctx.violation("the error for a cyclic graph does not name a cycle of files of the graph", rep,
-                              key="cycle-message:%s" % proj["adj"])
+        cyclic_n += graph_verdict(ctx, proj, results[p], "a small module graph")
     cases, cidx = model_cases(projects, results)
     bad = C.run_coq_cases(ctx.prop, SHAPE_PREAMBLE, cases, chunk=400, tag="small")
     ctx.stream("all digraphs on %s files: darklua's verdict vs an independent cycle test, and vs Model/Bundle.v "
@@ -565,10 +643,12 @@ def run(ctx):
     bad1, projects, meta, results = behaviour_stream(ctx, rnd, 150 if quick else 1000, proofs_ok)
     bad2, sprojects, sresults = small_graph_stream(ctx, rnd, [2, 3] if quick else [2, 3, 4], None)
     bad3, dprojects, dresults = defect_stream(ctx, rnd)
+    bad4, nprojects, nresults = samename_stream(ctx, rnd)
 
     model_bad = [("generated project", projects[p], results[p], d) for p, d in bad1] + \
                 [("small graph", sprojects[p], sresults[p], d) for p, d in bad2] + \
-                [("defect injection", dprojects[p], dresults[p], d) for p, d in bad3]
+                [("defect injection", dprojects[p], dresults[p], d) for p, d in bad3] + \
+                [("same-name layout", nprojects[p], nresults[p], d) for p, d in bad4]
     if model_bad and not ctx.violations:
         what, proj, cols, diag = model_bad[0]
         status, message = unhex_msg(cols[0])
